@@ -394,6 +394,9 @@ Proof.
   intros HI ND HC q t Hin Ht. apply (eval_all_done regs [] s HI ND HC (fun _ H => False_ind _ H) q Hin t Ht).
 Qed.
 
+Lemma eval_all_inv : forall regs s, LInv s -> LInv (eval_all regs s).
+Proof. induction regs as [|q r IH]; intros s H; cbn [eval_all fold_left]; [exact H|]. apply IH. apply eval_one_inv. exact H. Qed.
+
 Theorem linv_kept s : LInv s -> (forall p v, LInv (lset s p v)) /\ (forall q, LInv (eval_one s q)).
 Proof. intros H. split; [intros p v; apply lset_inv; exact H|intros q; apply eval_one_inv; exact H]. Qed.
 
